@@ -125,7 +125,7 @@ REG = {
         "technique": _TECH + "; suite rootinfer: executable Lean model of the four inferences, the anchoring of from_first_in and lexical pathlib "
                      "resolution over an abstract file system (Model/RootInfer.lean), compared call by call with the real functions (inferred root as returned, "
                      "resolved root, file, name / version / port-ID or the error class), + an oracle by plain path arithmetic: clean designations of one file "
-                     "must agree with the canonical one and documented ones must succeed",
+                     "must agree with the canonical one and documented ones must succeed; the file-name parsing of DSDLDefinition.__init__ and _parse_decimal are re-translated from the working tree on every run and proved equal to the model's mkDef (py2lean_filename: Gen.FileName, Bridge.FileName, Props.C15Gen)",
         "level_text": "Proved in Lean 4: parsing `[<port-id>.]<ShortName>.<major>.<minor>.<ext>` returns exactly the rendered components for all names, versions and port-IDs; "
                       "every accepted name has that shape with plain decimal numerals, every other name is a FileNameFormatError; the definition and the composite built from "
                       "it carry exactly the name, version, port-ID, file path and root directory encoded in the path; end to end (C15.result_identity, "
